@@ -30,24 +30,51 @@ type decoder struct {
 }
 
 var decoders = []decoder{
-	{"UnmarshalByte", false, func(in []byte) result { n, v, e := xbinary.UnmarshalByte(in); return result{n: n, err: e, kind: 'v', val: uint64(v), width: 1} }},
-	{"UnmarshalUint16", false, func(in []byte) result { n, v, e := xbinary.UnmarshalUint16(in); return result{n: n, err: e, kind: 'v', val: uint64(v), width: 2} }},
-	{"UnmarshalUint32", false, func(in []byte) result { n, v, e := xbinary.UnmarshalUint32(in); return result{n: n, err: e, kind: 'v', val: uint64(v), width: 4} }},
-	{"UnmarshalUint64", false, func(in []byte) result { n, v, e := xbinary.UnmarshalUint64(in); return result{n: n, err: e, kind: 'v', val: v, width: 8} }},
-	{"UnmarshalUint", false, func(in []byte) result { n, v, e := xbinary.UnmarshalUint(in); return result{n: n, err: e, kind: 'v', val: uint64(v)} }},
-	{"UnmarshalBytes(newBuf=false)", false, func(in []byte) result { n, v, e := xbinary.UnmarshalBytes(in, false); return result{n: n, err: e, kind: 's', sl: v} }},
-	{"UnmarshalBytes(newBuf=true)", true, func(in []byte) result { n, v, e := xbinary.UnmarshalBytes(in, true); return result{n: n, err: e, kind: 's', sl: v} }},
-	{"UnmarshalString(newBuf=false)", false, func(in []byte) result { n, v, e := xbinary.UnmarshalString(in, false); return result{n: n, err: e, kind: 't', str: v} }},
-	{"UnmarshalString(newBuf=true)", true, func(in []byte) result { n, v, e := xbinary.UnmarshalString(in, true); return result{n: n, err: e, kind: 't', str: v} }},
+	{"UnmarshalByte", false, func(in []byte) result {
+		n, v, e := xbinary.UnmarshalByte(in)
+		return result{n: n, err: e, kind: 'v', val: uint64(v), width: 1}
+	}},
+	{"UnmarshalUint16", false, func(in []byte) result {
+		n, v, e := xbinary.UnmarshalUint16(in)
+		return result{n: n, err: e, kind: 'v', val: uint64(v), width: 2}
+	}},
+	{"UnmarshalUint32", false, func(in []byte) result {
+		n, v, e := xbinary.UnmarshalUint32(in)
+		return result{n: n, err: e, kind: 'v', val: uint64(v), width: 4}
+	}},
+	{"UnmarshalUint64", false, func(in []byte) result {
+		n, v, e := xbinary.UnmarshalUint64(in)
+		return result{n: n, err: e, kind: 'v', val: v, width: 8}
+	}},
+	{"UnmarshalUint", false, func(in []byte) result {
+		n, v, e := xbinary.UnmarshalUint(in)
+		return result{n: n, err: e, kind: 'v', val: uint64(v)}
+	}},
+	{"UnmarshalBytes(newBuf=false)", false, func(in []byte) result {
+		n, v, e := xbinary.UnmarshalBytes(in, false)
+		return result{n: n, err: e, kind: 's', sl: v}
+	}},
+	{"UnmarshalBytes(newBuf=true)", true, func(in []byte) result {
+		n, v, e := xbinary.UnmarshalBytes(in, true)
+		return result{n: n, err: e, kind: 's', sl: v}
+	}},
+	{"UnmarshalString(newBuf=false)", false, func(in []byte) result {
+		n, v, e := xbinary.UnmarshalString(in, false)
+		return result{n: n, err: e, kind: 't', str: v}
+	}},
+	{"UnmarshalString(newBuf=true)", true, func(in []byte) result {
+		n, v, e := xbinary.UnmarshalString(in, true)
+		return result{n: n, err: e, kind: 't', str: v}
+	}},
 }
 
 var (
-	run     *ev.Run
-	evals   atomic.Int64
-	succ    atomic.Int64
-	failMu  sync.Mutex
-	failed  = map[string]bool{}
-	inputs  atomic.Int64
+	run    *ev.Run
+	evals  atomic.Int64
+	succ   atomic.Int64
+	failMu sync.Mutex
+	failed = map[string]bool{}
+	inputs atomic.Int64
 )
 
 func fail(sig string, in []byte, format string, a ...any) {
@@ -296,6 +323,6 @@ func main() {
 		"evaluations": evals.Load(), "distinct_nontrivial": succ.Load(), "successful_decodes": succ.Load(),
 		"samples": samples.List, "exhaustive": true,
 		"states_meaning": "states = distinct input byte strings (nodes of the input prefix tree) enumerated; transitions = decoder calls (9 decoders per input) each judged by the oracle",
-		"rule": "exhaustive enumeration of the input prefix tree within the stated lengths/alphabets plus the structured adversarial family; oracle per call: no panic; on success 0 < n <= len(input), fixed-width/varint value equals an independent decode, returned bytes equal input[n-len:n] with len equal to the decoded length prefix and (newBuf=false) lie inside the input buffer by pointer range or (newBuf=true) outside it; on failure n = 0. distinct_nontrivial counts successful decodes",
+		"rule":           "exhaustive enumeration of the input prefix tree within the stated lengths/alphabets plus the structured adversarial family; oracle per call: no panic; on success 0 < n <= len(input), fixed-width/varint value equals an independent decode, returned bytes equal input[n-len:n] with len equal to the decoded length prefix and (newBuf=false) lie inside the input buffer by pointer range or (newBuf=true) outside it; on failure n = 0. distinct_nontrivial counts successful decodes",
 	})
 }
